@@ -3,7 +3,7 @@
    construction as for the effective lifting lines, Model/Reid.v); the axial vector is the unswept chord direction made orthogonal to it,
    c1 u_a + c2 u_s with c1 = sqrt(1/(1-k^2)), c2 = -c1 k, k = <u_s, u_a>, normalised; the normal vector is their cross product. *)
 From Coq Require Import ZArith List Bool.
-From MuxV Require Import Base.Num Base.Vec3 Model.Reid.
+From MuxV Require Import Base.Num Base.Vec3 Base.Interp Model.Reid.
 Import ListNotations.
 
 Section Swept.
@@ -14,4 +14,18 @@ Section Swept.
   Definition swept_normal (ua us : v3 T) : v3 T := vcross ua us.
   Definition swept_triads (ll ua0 : list (v3 T)) : list (v3 T * v3 T * v3 T) :=
     map2 (fun us u0 => let ua := swept_axial us u0 in (ua, swept_normal ua us, us)) (swept_span ll) ua0.
+
+  (* 695-703: the vectors at the control points: linear interpolation between the node vectors (scipy interp1d over the ascending span
+     fractions), then made an orthonormal triad again - span vector normalised, axial vector freed of its span component and normalised,
+     normal vector their cross product (fix 55e4504) *)
+  Definition comp_table (f : v3 T -> T) (xs : list T) (vs : list (v3 T)) : list (T * T) := combine xs (map f vs).
+  Definition interp_vec (xs : list T) (vs : list (v3 T)) (s : T) : v3 T :=
+    V3 (interp s (comp_table vx xs vs)) (interp s (comp_table vy xs vs)) (interp s (comp_table vz xs vs)).
+  Definition cp_triad (xs : list T) (uas uss : list (v3 T)) (s : T) : v3 T * v3 T * v3 T :=
+    let us0 := interp_vec xs uss s in
+    let us := vdivs us0 (vnorm us0) in
+    let ua0 := interp_vec xs uas s in
+    let ua1 := vsub ua0 (vscale (vdot ua0 us) us) in
+    let ua := vdivs ua1 (vnorm ua1) in
+    (ua, vcross ua us, us).
 End Swept.
